@@ -1,19 +1,38 @@
-"""C15 -- isolation: results independent of history (and of concurrent work).
+"""C15 -- isolation: results independent of history and (for the module state the library owns) of concurrent work.
 
-**Schedules** (thread interleavings) cannot be expressed by per-call contracts and no
-tool of this family is available for Python threads: that half of C15 is NOT decided here
-(stated in MANIFEST level_note).  The **histories** half is a set of frame conditions on
-module state:
-  H1  `_patched_build_char_map`: on every exit of the with-body (normal, exception thrown at
-      the yield, close) every patched attribute holds its entry value again (symbolic execution
-      of the real generator; the with-body is assumed to leave the attributes as it found them,
-      which is this very obligation for nested uses);
-  H2  `patch_pypdf_fallback_aes` installs only module-level functions / closures without
-      captured per-call state (idempotent in behaviour) -- the one documented permanent change;
-  H3  memo soundness of every module-level cache: the stored value depends on the key only;
+**Histories** are frame conditions on module state, decided on the real AST / by symbolic execution of the real bodies:
+  H1  `_patched_build_char_map`: on every exit of the with-body (normal, exception thrown at the yield, close) every patched
+      attribute holds its entry value again (symbolic execution of the real generator);
+  H2  `patch_pypdf_fallback_aes` installs only module-level functions / closures without captured per-call state;
+  H3  memo soundness of every module-level cache, per store site: (a) the stored value is computed from nothing but what the key
+      is computed from (parameters AND module state, through helpers), (b) the key DETERMINES each of those inputs (built by
+      tuples / order-preserving conversions / helper functions whose returns do -- anything else is `unknown` and goes to the
+      native collision search), (c) lookups and stores use one key expression;
   H4  `_config` is written only by `configure_archive_extraction`;
-  H5  inventory of module-level mutable state (a new global mutable is flagged);
-  H6  every OLE / ZIP / workbook / temp-dir handle opened by own code is closed on all paths.
+  H5  inventory of module-level mutable state: every module- / class-level object that some function mutates (subscript / attribute
+      store, mutator method, setattr, through aliases and handed-out references), state kept on function / class objects, names
+      rebound through `global`, `globals()`, mutated mutable default arguments;
+  H6  every OLE / ZIP / workbook / temp-dir handle opened by own code is closed on all paths;
+  H7  every content-changing write of a cache happens behind a miss of its own lookup;
+  H8  a reader that takes "non-empty" for "completely populated" (`if REGISTRY: return REGISTRY`): every write sits behind that
+      guard and stores nothing that depends on the call;
+  H10 ownership: an object stored in / handed out by module state (cache values, per-thread pools, lru_cache results, module-level
+      tables) is never mutated afterwards (contracts/c15_own.py: interprocedural label propagation; `_get_round_keys` additionally
+      by symbolic execution with a ghost set of published heap objects);
+  H11 no interpreter-wide or third-party setting is changed (setters of os / sys / locale / warnings / logging / csv / mimetypes ...,
+      attribute stores and setattr on objects of other libraries, also through aliases) outside the two reviewed patch sites.
+
+**Schedules.**  Arbitrary interleavings are NOT decided.  What contracts over the real code do express, and what is decided here,
+are three sufficient conditions under which threads cannot disturb each other through the module state the library owns:
+  H10 (above) published objects are immutable after publication -- with it, a thread can only be affected through the cache
+      *operations*, never through a value it already holds;
+  H9a where entries can be evicted, every operation that needs its key present tolerates a concurrent eviction (try / lock);
+  H9b populate-once state is published atomically (one write statement or under a lock);
+  H12 a temporary patch of a shared object (save / set / restore) runs under a lock.
+A failed condition is `unknown` until the native replayer exhibits a schedule: two threads under a controlled scheduler
+(sys.settrace), one preemption at every line of the functions that touch the state (H9, H10), or two context switches at every
+pair of lines of the patching context manager (H12).  On /repo HEAD H9a, H9b and H12 fail and are reproduced: recorded in
+known_findings.json with proposed_fixes/C15_1..3.diff.
 """
 import ast
 
@@ -23,8 +42,10 @@ from pyvc import loader, ops
 from pyvc.contracts import FnContract, Raises
 from pyvc.flow import dotted, ground_obligation
 from pyvc.symex import Executor
-from pyvc.values import NONE, VBool, VExc, VExt, VFunc, VStr, VTuple, VUnk, fresh_name
+from pyvc.values import NONE, VBool, VExc, VExt, VFunc, VInt, VRef, VStr, VTuple, VUnk, fresh_name
 from pyvc.verify import Maker
+
+from contracts import c15_own as O
 
 PDF = "sharepoint2text/parsing/extractors/pdf/pdf_extractor.py"
 AESF = "sharepoint2text/parsing/extractors/pdf/_pypdf_aes_fallback.py"
@@ -63,6 +84,46 @@ class C15Executor(Executor):
             st.ghost["modattrs"] = a
             return [(st, NONE)]
         return self.havoc_call(st, "setattr", args, node)
+
+    # ---- module-level caches as abstract objects (sort "C15Cache"); what they hold is PUBLISHED (ghost set of heap refs)
+    def published(self, st):
+        return frozenset(st.ghost.get("published", ()))
+
+    def publish(self, st, ref):
+        st.ghost["published"] = self.published(st) | {ref}
+
+    def cached_object(self, st, what):
+        """Some object the cache held at entry: a list of unknown content, not fresh, published."""
+        from pyvc.state import HeapObj
+        ref = st.alloc(HeapObj("list", [VUnk(f"{what}[{i}]") for i in range(2)], None, False), self.refs)
+        self.publish(st, ref)
+        return VRef(ref)
+
+    def note_store(self, st, ref, node):
+        if ref in self.published(st) and self.loc(node) not in st.ghost.get("published_mutated", ()):
+            # frame condition: an object that is stored in / was read out of a module-level cache is never mutated
+            st.ghost["published_mutated"] = tuple(st.ghost.get("published_mutated", ())) + (self.loc(node),)
+        return super().note_store(st, ref, node)
+
+    def call_method(self, st, obj, name, args, kwargs, node):
+        if isinstance(obj, VRef) and obj.ref in self.published(st) and name in O.DEF_MUTATORS:
+            st.ghost["published_mutated"] = tuple(st.ghost.get("published_mutated", ())) + (self.loc(node),)
+        return super().call_method(st, obj, name, args, kwargs, node)
+
+    def store_index(self, st, base, idx, v, node):
+        if isinstance(base, VExt) and base.sort == "C15Cache":
+            if isinstance(v, VRef):
+                self.publish(st, v.ref)
+            st.ghost["cache_stores"] = tuple(st.ghost.get("cache_stores", ())) + ((idx, v),)
+            return [st]
+        return super().store_index(st, base, idx, v, node)
+
+    def b_len(self, st, args, kwargs, node):
+        if args and isinstance(args[0], VExt) and args[0].sort == "C15Cache":
+            n = z3.Int(fresh_name("cache_len"))
+            st.assume(n >= 0)
+            return [(st, VInt(n))]
+        return super().b_len(st, args, kwargs, node)
 
     def e_Yield(self, n, st):
         res = super().e_Yield(n, st)
@@ -153,6 +214,65 @@ def contracts(reg):
                        label="exception thrown into the with-body / GeneratorExit: attributes restored before it propagates")],
         note="the generator behind @contextlib.contextmanager; with-protocol = body up to the yield, then the finally block",
     ))
+    out.extend(cache_contracts(reg))
+    return out
+
+
+def cache_contracts(reg):
+    """`_get_round_keys` under a symbolic contract: the module-level OrderedDict is an abstract object whose values are
+    PUBLISHED heap objects (shared with later calls and other threads).  Obligations, on the real body:
+      * frame: no published object is mutated -- neither what a hit returns, nor what an eviction drops, nor the new entry after
+        it was stored (ExecutorC15.note_store);
+      * a miss stores under the key it looked up."""
+    from pyvc.verify import p_unk
+    out = []
+    reg.module_consts[(AESF, "_ROUND_KEY_CACHE")] = VExt("C15Cache")
+
+    def m_get(ex, st, obj, args, kwargs, node):
+        miss = st.fork()
+        st.ghost["lookups"] = tuple(st.ghost.get("lookups", ())) + (args[0],)
+        miss.ghost["lookups"] = tuple(miss.ghost.get("lookups", ())) + (args[0],)
+        return [(miss, args[1] if len(args) > 1 else NONE), (st, ex.cached_object(st, "cached"))]
+
+    def m_popitem(ex, st, obj, args, kwargs, node):
+        return [(st, VTuple([VUnk("evicted_key"), ex.cached_object(st, "evicted")]))]
+
+    def m_pop(ex, st, obj, args, kwargs, node):
+        return [(st, ex.cached_object(st, "popped"))]
+
+    reg.method_models[("C15Cache", "get")] = m_get
+    reg.method_models[("C15Cache", "popitem")] = m_popitem
+    reg.method_models[("C15Cache", "pop")] = m_pop
+    reg.method_models[("C15Cache", "move_to_end")] = lambda ex, st, o, a, k, n: [(st, NONE)]
+    reg.method_models[("C15Cache", "clear")] = lambda ex, st, o, a, k, n: [(st, NONE)]
+
+    def m_expand(ex, st, args, kwargs, node):
+        bad = st.fork()
+        ex.raise_in(bad, ex.mk_exc("ValueError"))
+        return [(st, ex.new_list(st, [VUnk(f"rk[{i}]") for i in range(2)]))]       # a fresh list of round keys
+
+    reg.ext_models["C15.expand_key"] = m_expand
+    reg.module_consts[(AESF, "_expand_key")] = VFunc("ext", "C15.expand_key")
+
+    def stored_under_looked_up_key(c):
+        stores = c.st.ghost.get("cache_stores", ())
+        looks = c.st.ghost.get("lookups", ())
+        ok = all(any(k is l for l in looks) or any(k is c.args[a] for a in c.args) for (k, _v) in stores)
+        return z3.BoolVal(bool(ok))
+
+    def not_mutated(c):
+        m = c.st.ghost.get("published_mutated", ()) if c.st is not None else ()
+        if m:
+            c.note = "mutates an object the cache holds / has handed out at " + ", ".join(m)
+        return z3.BoolVal(not m)
+
+    out.append(FnContract(
+        target=f"{AESF}::_get_round_keys", params=[("key", p_unk())],
+        ensures=[("objects-held-by-the-cache-are-not-mutated", not_mutated),
+                 ("a-miss-stores-under-the-key-it-looked-up", stored_under_looked_up_key)],
+        raises=[Raises("ValueError", when=not_mutated, label="only the key-length check of _expand_key, and nothing published was mutated before")],
+        note="cache object abstract; _expand_key assumed to return a fresh list or raise ValueError (its contract is C20's)",
+    ))
     return out
 
 
@@ -205,6 +325,19 @@ def deps(fnode, expr, params):
     return out
 
 
+SETTERS = {
+    "os.putenv", "os.unsetenv", "os.chdir", "os.umask", "os.environ.setdefault", "os.environ.update", "os.environ.pop", "locale.setlocale",
+    "warnings.filterwarnings", "warnings.simplefilter", "warnings.resetwarnings", "logging.disable", "logging.basicConfig", "logging.captureWarnings",
+    "sys.setrecursionlimit", "sys.setswitchinterval", "sys.settrace", "sys.setprofile", "threading.settrace", "threading.setprofile",
+    "socket.setdefaulttimeout", "mimetypes.add_type", "mimetypes.init", "random.seed", "csv.field_size_limit", "csv.register_dialect",
+    "xml.etree.ElementTree.register_namespace", "atexit.register", "signal.signal", "signal.alarm", "gc.disable", "gc.enable", "gc.set_threshold",
+    "codecs.register", "codecs.register_error", "decimal.setcontext", "email.charset.add_charset", "email.charset.add_alias", "faulthandler.enable",
+    "resource.setrlimit", "time.tzset", "importlib.reload", "zipfile.ZipFile.register", "copyreg.pickle", "sys.setdefaultencoding",
+    "struct._clearcache", "re.purge", "linecache.clearcache", "tracemalloc.start", "multiprocessing.set_start_method",
+}
+GETTER_WITHOUT_ARGS = {"csv.field_size_limit", "locale.setlocale"}
+
+
 def policy(repo, tier):
     obls, fns = [], []
     files = [f for f in loader.all_package_files(repo) if "/sharepoint_io/" not in f]
@@ -242,42 +375,142 @@ def policy(repo, tier):
                     why.append(f"line {n.lineno}: installs {src}")
         fns.append(dict(aes.fn_info("patch_pypdf_fallback_aes"), obligations=1))
     G("C15/_pypdf_aes_fallback.py::patch_pypdf_fallback_aes/frame#installs-only-stateless-functions-(idempotent)", ok, "; ".join(why), AESF)
-    # H3 / H5: module-level mutable state and memo soundness
-    inventory = {}
-    for rel, m in mods.items():
-        for name, e in m.assigns.items():
-            mutable = isinstance(e, (ast.Dict, ast.List, ast.Set)) or (isinstance(e, ast.Call) and dotted(e.func) in ("dict", "list", "set", "OrderedDict", "collections.OrderedDict", "defaultdict"))
-            if not mutable:
-                continue
-            writers = []
-            for q, fn in m.functions.items():
-                for n in _own(fn):
-                    if isinstance(n, (ast.Assign, ast.AugAssign)):
-                        for t in (n.targets if isinstance(n, ast.Assign) else [n.target]):
-                            if isinstance(t, ast.Subscript) and isinstance(t.value, ast.Name) and t.value.id == name:
-                                writers.append((q, fn, n, t))
-                    if isinstance(n, ast.Call) and isinstance(n.func, ast.Attribute) and isinstance(n.func.value, ast.Name) and n.func.value.id == name \
-                            and n.func.attr in ("append", "extend", "update", "setdefault", "add", "pop", "popitem", "clear", "move_to_end", "insert"):
-                        writers.append((q, fn, n, None))
-            if writers:
-                inventory[f"{rel.split('/')[-1]}::{name}"] = writers
-    expected = {"pdf_extractor.py::_FONT_CACHE", "serialization.py::_TYPE_REGISTRY", "_pypdf_aes_fallback.py::_ROUND_KEY_CACHE"}
-    extra = sorted(set(inventory) - expected)
-    G("C15/package/policy#inventory-of-module-level-mutable-state", not extra and expected <= set(inventory),
-      f"mutated module-level containers: {sorted(inventory)}" + (f"; NOT in the reviewed inventory: {extra}" if extra else ""), "package")
-    for key, writers in sorted(inventory.items()):
-        k = 0
-        for (q, fn, n, t) in writers:
-            if t is None or not isinstance(n, ast.Assign):
-                continue
-            params = [a.arg for a in fn.args.args + fn.args.kwonlyargs]
-            kd = deps(fn, t.slice, params)
-            vd = deps(fn, n.value, params)
+    # H3 / H5 / H7..H9: module-level state -- inventory, memo soundness, write discipline, ownership, atomicity (contracts/c15_own.py)
+    an = O.Analysis(repo, files)
+    rel_of = {an.sid(rel, name): rel for (rel, name) in an.state}
+    written = an.written_states()
+    expected = {"pdf_extractor.py::_FONT_CACHE", "serialization.py::_TYPE_REGISTRY", "_pypdf_aes_fallback.py::_ROUND_KEY_CACHE", "archive_extractor.py::_config"}
+    extra = sorted(set(written) - expected)
+    inv = ground_obligation("C15/package/policy#inventory-of-module-level-mutable-state", not extra and expected <= set(written) and an.converged,
+                            f"mutated module-level objects: {written}" + (f"; NOT in the reviewed inventory: {extra}" if extra else ""), "package")
+    inv["replay_hint"] = {"new_states": [{"state": x, "rel": rel_of.get(x), "writers": sorted({e["fn"][1] for e in an.writes(x)})} for x in extra]}
+    obls.append(inv)
+
+    def hint(x, **kw):
+        return dict({"state": x, "rel": rel_of.get(x), "functions": O.touching_functions(an, x)}, **kw)
+
+    def GH(oid, ok, why, loc, definite=True, h=None):
+        o = ground_obligation(oid, ok, why, loc, definite=definite)
+        if h is not None:
+            o["replay_hint"] = h
+        obls.append(o)
+
+    for x in written:
+        cw = sorted(O.content_writes(an, x), key=lambda e: (e["fn"], e["node"].lineno, e["node"].col_offset))
+        keyed = [e for e in cw if e["key"] is not None and e["value"] is not None and not e["removal"]]
+        # bulk publication from a local staging dict: X.update(local) with local[k] = v in the same function -> its keyed stores
+        for e in cw:
+            n = e["node"]
+            if isinstance(n, ast.Call) and isinstance(n.func, ast.Attribute) and n.func.attr == "update" and len(n.args) == 1 and isinstance(n.args[0], ast.Name):
+                fn = an.fns[e["fn"]]
+                for a in fn.own:
+                    if isinstance(a, ast.Assign) and len(a.targets) == 1 and isinstance(a.targets[0], ast.Subscript) and isinstance(a.targets[0].value, ast.Name) \
+                            and a.targets[0].value.id == n.args[0].id and n.args[0].id in fn.locals:
+                        keyed.append(dict(e, node=a, key=a.targets[0].slice, value=a.value, how=f"line {a.lineno}: {ast.unparse(a.targets[0])} staged, published by line {n.lineno}"))
+        keyed.sort(key=lambda e: (e["fn"], e["node"].lineno, e["node"].col_offset))
+        accessors = sorted({e["fn"][1] for e in cw})
+        per_fn = {}
+        for e in keyed:
+            fn = an.fns[e["fn"]]
+            q = e["fn"][1]
+            k = per_fn.get(q, 0)
+            per_fn[q] = k + 1
+            kd = O.deps(an, fn, e["key"])
+            vd = O.deps(an, fn, e["value"])          # incl. module state: a value computed from what the cache holds depends on history
             ok = vd <= kd
-            G(f"C15/{key}/memo#stored-value-depends-only-on-the-key-{q}-{k}", ok,
-              f"{q}: key depends on {sorted(kd)}, stored value depends on {sorted(vd)}" + ("" if ok else " -- a later call with the same key and other arguments gets a stale value"),
-              key)
-            k += 1
+            h = hint(x, writer=q, accessors=accessors)
+            # H3a: the stored value is computed from nothing but what the key is computed from (parameters and module state)
+            GH(f"C15/{x}/memo#stored-value-depends-only-on-the-key-{q}-{k}", ok,
+               f"{q}: key depends on {sorted(kd)}, stored value depends on {sorted(vd)}" + ("" if ok else " -- a later call with the same key and other arguments gets a stale value"), x, h=h)
+            # H3b: ... and the key DETERMINES each of those inputs (two different inputs never share a key)
+            lost = [p for p in sorted(vd) if not p.startswith("state:") and not O.determines(an, fn, e["key"], p)]
+            GH(f"C15/{x}/memo#key-determines-every-input-of-the-stored-value-{q}-{k}", not lost,
+               f"{q}: key `{ast.unparse(e['key'])[:80]}`" + (f" is not built injectively from {lost}: two calls that differ in {lost} may share a cache entry" if lost else
+                                                              f" is built from {sorted(vd)} by tuples / order-preserving conversions only"), x, definite=False, h=h)
+        # H3c: lookups and stores of one accessor use one key expression
+        for q in accessors:
+            fn = an.fns[[e["fn"] for e in cw if e["fn"][1] == q][0]]
+            keys = set()
+            for n in fn.own:
+                if isinstance(n, ast.Subscript) and not isinstance(n.slice, ast.Slice) and O.is_state_expr(an, fn, n.value, x):
+                    keys.add(ast.unparse(n.slice))
+                elif isinstance(n, ast.Compare) and len(n.ops) == 1 and isinstance(n.ops[0], (ast.In, ast.NotIn)) and O.is_state_expr(an, fn, n.comparators[0], x):
+                    keys.add(ast.unparse(n.left))
+                elif isinstance(n, ast.Call) and isinstance(n.func, ast.Attribute) and n.func.attr in ("get", "setdefault", "pop", "move_to_end") and n.args \
+                        and O.is_state_expr(an, fn, n.func.value, x):
+                    keys.add(ast.unparse(n.args[0]))
+            for e in keyed:
+                if e["fn"][1] == q and "staged" in e["how"]:
+                    keys.add(ast.unparse(e["key"]))
+            if keys:
+                GH(f"C15/{x}/memo#lookup-key-is-the-store-key-{q}", len(keys) == 1, f"{q}: key expressions used on the cache: {sorted(keys)}", x, definite=False,
+                   h=hint(x, writer=q, accessors=accessors))
+        # H7: every content-changing write happens after a miss of the state's own lookup, in its accessor
+        unguarded = []
+        for e in cw:
+            if e["removal"]:
+                continue
+            fn = an.fns[e["fn"]]
+            if O.miss_guard(an, fn, e["node"], x) is None:
+                unguarded.append(f"{e['fn'][1]}: {e['how']}")
+        if cw:
+            GH(f"C15/{x}/frame#written-only-after-a-miss-of-its-own-lookup", not unguarded,
+               "; ".join(unguarded) or f"{len([e for e in cw if not e['removal']])} write(s), each behind an `if <lookup hit>: return`; accessor(s): {accessors}", x,
+               definite=False, h=hint(x, accessors=accessors))
+        # H8: a reader that takes "non-empty" for "completely populated" -> every write sits behind that guard and stores nothing call-specific
+        eg = O.emptiness_guards(an, x)
+        if eg:
+            bad = []
+            for e in cw:
+                fn = an.fns[e["fn"]]
+                okw = False
+                for (gf, g, form) in eg:
+                    if gf is not fn:
+                        continue
+                    pm = O.parents_of(fn)
+                    if form == "nonempty-return" and e["node"].lineno > g.end_lineno:
+                        okw = True
+                    if form == "empty-populate" and O.inside(pm, e["node"], g.body):
+                        okw = True
+                if not okw:
+                    bad.append(f"{e['fn'][1]}: {e['how']} is outside the populate-once guard of {sorted({gf.q for (gf, _g, _f) in eg})}")
+                    continue
+                for part in ("key", "value"):
+                    if e[part] is not None:
+                        d = {p for p in O.deps(an, fn, e[part], exclude_state=(x,)) if not p.startswith("state:")}
+                        if d:
+                            bad.append(f"{e['fn'][1]}: {e['how']} stores something that depends on the call ({sorted(d)})")
+            GH(f"C15/{x}/frame#non-empty-means-completely-populated", not bad,
+               "; ".join(bad) or f"guard in {sorted({gf.q for (gf, _g, _f) in eg})}; all {len(cw)} write(s) behind it, none depends on a parameter", x,
+               h=hint(x, accessors=accessors))
+            # H9b (schedules): the population is not observable half-done by another thread
+            direct = [e for e in cw if not e["removal"] and not O.locked(an.fns[e["fn"]], e["node"])]
+            stepwise = [e for e in direct if an.fns[e["fn"]].loops.get(id(e["node"]))] or (direct if len(direct) > 1 else [])
+            GH(f"C15/{x}/schedule#populate-once-state-is-published-atomically", not stepwise,
+               "; ".join(f"{e['fn'][1]}: {e['how']} fills the shared object step by step: a thread that tests it meanwhile takes the partial content for complete" for e in stepwise[:3])
+               or "one write statement outside loops (or under a lock)", x, definite=False, h=hint(x, accessors=accessors))
+        # H9a (schedules): where entries can be evicted, operations that need their key present tolerate a concurrent eviction
+        if any(e["removal"] for e in an.writes(x)):
+            acts = O.keyed_acts(an, x)
+            per = {}
+            for (fn, n, text) in acts:
+                k = per.get(fn.q, 0)
+                per[fn.q] = k + 1
+                ok = O.tolerant_or_locked(fn, n)
+                GH(f"C15/{x}/schedule#keyed-act-tolerates-a-concurrent-eviction-{fn.q}-{k}", ok,
+                   f"{fn.q} line {n.lineno}: `{text}` " + ("is inside try/except KeyError or a lock" if ok else
+                                                          "raises KeyError when another thread evicts the entry between the lookup and this statement"), x,
+                   definite=False, h=hint(x, accessors=accessors, act=fn.q))
+        # H10: ownership -- objects stored in / handed out by the state are never mutated afterwards
+        vm = an.vmuts(x)
+        GH(f"C15/{x}/ownership#objects-handed-out-by-the-cache-are-never-mutated", not vm,
+           "; ".join(f"{e['fn'][1]}: {e['how']}" for e in vm[:4]) or f"handed out through {[k[1] for k, f in sorted(an.fns.items()) if ('V:' + x) in f.ret or ('S:' + x) in f.ret]}; no mutation site reaches them",
+           x, definite=any(e["definite"] for e in vm), h=hint(x, accessors=accessors))
+    # H10 for module-level tables nobody writes and for memoised results (lru_cache): never mutated through an alias either
+    other = [e for e in an.events if e["kind"] == "vmut" and e["state"] not in written]
+    GH("C15/package/ownership#module-level-tables-and-memoised-results-are-never-mutated-through-aliases", not other,
+       "; ".join(f"{e['state']} in {e['fn'][1]}: {e['how']}" for e in other[:4]) or f"{len(an.state)} module- / class-level mutable objects, {len(an.cached_fns)} memoised functions", "package",
+       definite=any(e["definite"] for e in other), h={"rel": rel_of.get(other[0]["state"]) if other else None})
     # lru_cache functions: pure functions of their parameters, apart from the listed read-only globals
     for rel, m in mods.items():
         for q, fn in m.functions.items():
@@ -285,7 +518,8 @@ def policy(repo, tier):
                 params = {a.arg for a in fn.args.args}
                 stores = [x for x in _own(fn) if isinstance(x, (ast.Global, ast.Nonlocal))]
                 attr_stores = [x for x in _own(fn) if isinstance(x, (ast.Attribute, ast.Subscript)) and isinstance(x.ctx, ast.Store)]
-                reads_config = [x.id for x in _own(fn) if isinstance(x, ast.Name) and x.id == "_config"]
+                afn = an.fns.get((rel, q))
+                reads_config = sorted(set(afn.reads) & set(written)) if afn is not None else ["?"]
                 G(f"C15/{rel.split('/')[-1]}::{q}/memo#lru_cache-wrapped-function-has-no-side-effect-and-reads-no-mutable-config",
                   not stores and not attr_stores and not reads_config, f"globals={len(stores)} stores={len(attr_stores)} config-reads={len(reads_config)}", rel)
     # H5b: module-level names rebound from inside functions (`global X`): flags, counters, configuration
@@ -297,13 +531,101 @@ def policy(repo, tier):
                     for nm in n.names:
                         if any(isinstance(x, ast.Name) and x.id == nm and isinstance(x.ctx, ast.Store) for x in _own(fn)):
                             rebinders.append(f"{rel.split('/')[-1]}::{q} rebinds global {nm}")
+    for rel, m in mods.items():
+        for q, fn in m.functions.items():
+            for n in _own(fn):
+                if isinstance(n, ast.Call) and dotted(n.func) in ("globals", "vars", "sys.modules.__getitem__", "importlib.import_module") and \
+                        (dotted(n.func) == "globals" or (dotted(n.func) == "vars" and not n.args)):
+                    rebinders.append(f"{rel.split('/')[-1]}::{q} reaches module state through {dotted(n.func)}()")
+                if isinstance(n, ast.Subscript) and dotted(n.value) == "sys.modules":
+                    rebinders.append(f"{rel.split('/')[-1]}::{q} reaches module state through sys.modules[...]")
     allowed = {"archive_extractor.py::configure_archive_extraction rebinds global _config"}
     extra_g = sorted(set(rebinders) - allowed)
-    G("C15/package/policy#no-module-level-name-is-rebound-by-extraction-code", not extra_g,
-      "; ".join(extra_g) or f"{len(rebinders)} rebinding site(s), all in the reviewed list", "package")
+    rb = ground_obligation("C15/package/policy#no-module-level-name-is-rebound-by-extraction-code", not extra_g,
+                           "; ".join(extra_g) or f"{len(rebinders)} rebinding site(s), all in the reviewed list", "package")
+    rb["replay_hint"] = {"context_managers": [[rel, q] for rel, m in mods.items() for q, fn in m.functions.items()
+                                              if any("contextmanager" in ast.unparse(d) for d in fn.decorator_list)
+                                              and f"{rel.split('/')[-1]}::{q}" in {r.split(" rebinds ")[0] for r in extra_g}]}
+    obls.append(rb)
+    # H5c: a mutable default argument that the function mutates is module-level state in disguise
+    md = []
+    for (rel, q), afn in sorted(an.fns.items()):
+        a = afn.node.args
+        pos = a.posonlyargs + a.args
+        pairs = list(zip(pos[len(pos) - len(a.defaults):], a.defaults)) + [(k, d) for k, d in zip(a.kwonlyargs, a.kw_defaults) if d is not None]
+        for (arg, d) in pairs:
+            if O.mutable_expr(d) and arg.arg in afn.mut:
+                md.append(f"{rel.split('/')[-1]}::{q}({arg.arg}={ast.unparse(d)[:20]}) is mutated by the function")
+    G("C15/package/policy#no-mutable-default-argument-is-mutated", not md, "; ".join(md[:5]) or "no function mutates a parameter that has a mutable default", "package")
+    # H11: interpreter- / library-wide settings (the state behind os, sys, locale, warnings, logging, csv, mimetypes, PIL, pypdf ...)
+    sites = []
+    for rel, m in mods.items():
+        imp = an.imports[rel]
+        for q, fn in m.functions.items():
+            afn = an.fns.get((rel, q))
+            loc_names = afn.locals if afn is not None else set()
+
+            def origin(e):
+                """dotted origin of an attribute chain whose root is an imported name ('' otherwise)"""
+                d = dotted(e)
+                if not d:
+                    return ""
+                root, _, rest = d.partition(".")
+                if root in loc_names or root not in imp:
+                    return ""
+                return imp[root] + ("." + rest if rest else "")
+            for n in _own(fn):
+                if isinstance(n, ast.Call):
+                    o = origin(n.func)
+                    if o in SETTERS and (o not in GETTER_WITHOUT_ARGS or n.args or n.keywords):
+                        sites.append((f"{rel.split('/')[-1]}::{q}", f"line {n.lineno}: {o}(...)"))
+                    if dotted(n.func) in ("setattr", "delattr") and n.args:
+                        o = origin(n.args[0])
+                        if o and not o.startswith("sharepoint2text"):
+                            sites.append((f"{rel.split('/')[-1]}::{q}", f"line {n.lineno}: setattr on {o}"))
+                    if isinstance(n.func, ast.Attribute) and n.func.attr in O.DEF_MUTATORS:
+                        o = origin(n.func.value)
+                        if o in ("os.environ", "sys.path", "sys.modules", "sys.meta_path", "warnings.filters", "mimetypes.types_map", "sys.argv"):
+                            sites.append((f"{rel.split('/')[-1]}::{q}", f"line {n.lineno}: {o}.{n.func.attr}(...)"))
+                elif isinstance(n, (ast.Assign, ast.AugAssign, ast.AnnAssign, ast.Delete)):
+                    tgts = n.targets if isinstance(n, (ast.Assign, ast.Delete)) else [n.target]
+                    for t in tgts:
+                        for e in (t.elts if isinstance(t, (ast.Tuple, ast.List)) else [t]):
+                            if isinstance(e, (ast.Attribute, ast.Subscript)):
+                                o = origin(e.value)
+                                if o and not o.startswith("sharepoint2text"):
+                                    sites.append((f"{rel.split('/')[-1]}::{q}", f"line {n.lineno}: {ast.unparse(e)[:60]} assigned ({o} is not the package's own state)"))
+    # ... also through aliases / containers / helper returns (label X: of the ownership analysis)
+    for e in an.xmuts():
+        sites.append((f"{e['fn'][0].split('/')[-1]}::{e['fn'][1]}", f"{e['how']} ({e['state']} is not the package's own state)"))
+    reviewed = {"_pypdf_aes_fallback.py::patch_pypdf_fallback_aes",          # the one documented permanent change (H2)
+                "pdf_extractor.py::_patched_build_char_map"}                 # the temporary patch: restored on every exit (H1), serialised (H12)
+    extra_s = sorted({f"{w} {what}" for (w, what) in sites if w not in reviewed})
+    st_o = ground_obligation("C15/package/policy#no-interpreter-or-third-party-setting-is-changed-by-extraction-code", not extra_s,
+                             "; ".join(extra_s[:5]) or f"{len(sites)} site(s), all in {sorted(reviewed)}; setters checked: {len(SETTERS)}", "package", definite=False)
+    st_o["replay_hint"] = {"context_managers": [[rel, q] for rel, m in mods.items() for q, fn in m.functions.items()
+                                                if any("contextmanager" in ast.unparse(d) for d in fn.decorator_list)]}
+    obls.append(st_o)
+    # H12 (schedules): a temporary patch of a shared object (save / set / restore) is a critical section
+    by_fn = {}
+    for e in an.xmuts():
+        w = f"{e['fn'][0].split('/')[-1]}::{e['fn'][1]}"
+        if w != "_pypdf_aes_fallback.py::patch_pypdf_fallback_aes":
+            by_fn.setdefault(e["fn"], []).append(e)
+    for key, evs in sorted(by_fn.items()):
+        afn = an.fns[key]
+        open_ = [e for e in evs if not O.locked(afn, e["node"])]
+        is_cm = any("contextmanager" in ast.unparse(d) for d in afn.node.decorator_list)
+        o = ground_obligation(f"C15/{key[0].split('/')[-1]}::{key[1]}/schedule#temporary-patch-of-shared-objects-is-serialised", not open_,
+                              "; ".join(sorted({f"{e['how']} on {e['state']}" for e in open_})[:4]) + (" -- not under a lock: two threads interleaving save / set / restore "
+                                                                                                      "leave the other thread's wrapper installed" if open_ else "all under a lock"),
+                              key[0], definite=False)
+        o["replay_hint"] = {"rel": key[0], "patchers": [[key[0], key[1]]] if is_cm else [], "functions": [key[1].split(".")[-1]]}
+        obls.append(o)
     # H4: _config
     arch = mods[ARCH]
-    writers = [q for q, fn in arch.functions.items() if any(isinstance(n, ast.Global) and "_config" in n.names for n in _own(fn))]
+    writers = sorted({q for q, fn in arch.functions.items() if any(isinstance(n, ast.Global) and "_config" in n.names for n in _own(fn))}
+                     | {e["fn"][1] for e in an.writes("archive_extractor.py::_config")})
     G("C15/archive_extractor.py::_config/frame#written-only-by-configure_archive_extraction", writers == ["configure_archive_extraction"], str(writers), ARCH)
     # H6: handles closed on all paths
     bad, n_sites = [], 0
@@ -380,17 +702,51 @@ def validate_histories(repo, tier):
     if "mismatches" not in res:
         return {"obligations": [], "undecided": [{"obligation": oid, "why": "native validation did not run: " + str(res.get("note", ""))[:200]}]}
     mm = res["mismatches"]
-    return {"obligations": [ground_obligation(oid, not mm, "; ".join(f"{m[0]}: {m[1]}" for m in mm[:6]) or f"{res.get('fixtures')} fixtures agree", "package",
-                                              kind="assumption-validation", backend="native-replay(bounded: repository fixtures, 2 orders)")]}
+    o = ground_obligation(oid, not mm, "; ".join(f"{m[0]}: {m[1]}" for m in mm[:6]) or f"{res.get('fixtures')} fixtures + generated documents agree", "package",
+                          kind="assumption-validation", backend="native-replay(bounded: generated documents pairwise, stored payloads, repository fixtures in 2 orders)")
+    o["bounded"] = True          # a bounded native run: never counted as discharged
+    o["bound"] = "generated documents (every ordered pair), (de)serialisation after one other step, repository fixtures forward / reverse"
+    return {"obligations": [o]}
+
+
+def known_findings(kf, violations, repo, tier):
+    """Recorded genuine defects (schedule half).  A recorded finding covers its obligation only while the native replayer still
+    reproduces it *at the recorded place*: the preemption point of the reproduced schedule must lie in the recorded function."""
+    import json
+    vio = {v["id"]: v for v in violations}
+    out = []
+    for f in kf:
+        o = vio.get(f["obligation"])
+        still, detail = False, ""
+        rp = (o or {}).get("_replayed") or {}
+        if o is not None and rp.get("reproduced"):
+            try:
+                rec = json.load(open(rp["path"]))
+            except Exception:  # noqa
+                rec = {}
+            where = str((rec.get("inputs") or {}).get("preemption_point") or "")
+            want = (f.get("witness") or {}).get("preempt_in")
+            still = bool(want) and where.endswith(" in " + want)
+            detail = str((rec.get("inputs") or {}).get("schedule") or "")[:300] + " -> " + str(rec.get("observed"))[:120]
+        out.append({"finding": f["id"], "still_fails": still, "line": f"{f['id']}: {f['what']}", "covers": [f["obligation"]] if still else [],
+                    "witness_replay": detail})
+    return out
 
 
 EXTRA = [policy, validate_histories]
-BOUNDED = ["assumed-contract-validation#fixtures-same-in-isolation-and-in-sequences: repository fixtures, forward and reverse order in one process, "
-           "PDFs and a sample of the rest against fresh-process baselines -- bounded validation of the frame assumptions, not a proof"]
+BOUNDED = ["assumed-contract-validation#fixtures-same-in-isolation-and-in-sequences: generated documents (EPUB / HTML incl. truncated ones, text, archives, "
+           "corrupt inputs) every one after every other one against forked pristine baselines, stored payloads deserialised after one other "
+           "(de)serialisation step, repository fixtures forward and reverse in one process with fresh-process baselines for the PDFs and a sample; "
+           "interpreter / third-party settings and patched functions compared before / after -- bounded validation, not a proof"]
 TRUSTED = ["the with-body of _patched_build_char_map leaves the patched attributes as it found them (holds for nested uses by this very obligation)",
-           "mimetypes database does not change between calls (lru_cache'd guess_content_type, router caches)"]
-ASSUMED_MODELS = ["getattr/setattr on pypdf modules (ghost attribute map)", "generator resumption: normal, throw(exc), close()"]
-ASSUMPTIONS = ["SCHEDULES (thread interleavings) are NOT decided: contracts over one call cannot express them",
-               "memo soundness is a parameter-dependency analysis on the AST (back end 'dataflow')", "PY-GEN"]
+           "mimetypes database does not change between calls (lru_cache'd guess_content_type, router caches)",
+           "library (non-package) callables do not mutate the arguments they are given (ownership analysis); copies (dict(x), list(x), x.copy(), slices) "
+           "are tracked one level deep"]
+ASSUMED_MODELS = ["getattr/setattr on pypdf modules (ghost attribute map)", "generator resumption: normal, throw(exc), close()",
+                  "_ROUND_KEY_CACHE as an abstract mapping whose values are published heap objects; _expand_key returns a fresh list or raises ValueError (C20 proves it)"]
+ASSUMPTIONS = ["SCHEDULES: only the sufficient conditions H9a / H9b / H10 / H12 on the module state the library owns are decided; interleavings inside third-party "
+               "code and schedules with more context switches than the replayer explores (1 for caches, 2 for the patch section) are NOT",
+               "memo soundness / ownership / write discipline are dataflow analyses on the real AST (back end 'dataflow'); an unrecognised shape is `unknown`, never proved",
+               "PY-GEN"]
 
 REPLAY_UNKNOWN = True    # undecided / out-of-subset items are searched natively (replay) before being reported UNDECIDED
